@@ -104,6 +104,13 @@ def run(ctx):
             else:
                 for s in sites:
                     kh[s] += 1
+    # shared sites each pair is known to race on (from the exhaustive warm exploration, both roles); in a cold process the shared
+    # objects do not exist before B runs, so a cold divergence is attributed to the sites its pair showed when warm
+    pair_sites = collections.defaultdict(set)
+    for (cls, X, Y, role, _), r in zip(meta, res):
+        for dv in r.get("divergent", []):
+            pk = tuple(sorted([json.dumps(X, sort_keys=True), json.dumps(Y, sort_keys=True)]))
+            pair_sites[pk] |= set(dv["changed"] or ["(no shared variable changed)"])
     for (cls, X, Y, role, k), r in zip(cold_meta, cold):
         if "error" in r or not r.get("divergent"):
             continue
@@ -113,7 +120,8 @@ def run(ctx):
         if dv["where"] is None:
             continue      # k beyond the last executed line: B simply ran after A
         if dv["ra"] != ra0 or dv["rb"] != rb0:
-            sites = dv["changed"] or ["(no shared variable changed)"]
+            pk = tuple(sorted([json.dumps(X, sort_keys=True), json.dumps(Y, sort_keys=True)]))
+            sites = sorted(set(dv["changed"]) | pair_sites.get(pk, set())) or ["(no shared variable changed)"]
             if cls in ("same-config", "benign-settings") or not set(sites) <= known_sites:
                 viol.append({"why": "a single preemption changes a result", "pair_class": cls, "role": role, "A": X, "B": Y, "preempt_at_line_event": k, "where": dv["where"],
                              "sequential": [ra0, rb0], "interleaved": [dv["ra"], dv["rb"]], "shared_variables_changed_by_B": dv["changed"], "process": "cold"})
